@@ -13,6 +13,8 @@ for d in sorted(glob.glob(os.path.join(HERE, 'seeded', 'C*-m*'))):
     pid = name.split('-')[0]
     if want and pid not in want:
         continue
+    if os.environ.get('SEED_FILTER') and not re.search(os.environ['SEED_FILTER'], name):
+        continue
     if not os.path.exists(os.path.join(HERE, 'checks', pid.lower() + '.py')):
         continue
     tmp = tempfile.mkdtemp(prefix='seedmx.')
